@@ -25,7 +25,20 @@ def _axis(case):
     else:
         start = float(kind)
     if case["dir"] == "t":
-        ax = qr.TimeAxis(start, N, dt, atype=case["atype"])
+        mut = case.get("mut")
+        if mut == "atype-set-after":
+            # HISTORY: constructed with the other type, the attribute is set afterwards
+            other = "complete" if case["atype"] == "upper-half" else "upper-half"
+            ax = qr.TimeAxis(start, N, dt, atype=other)
+            ax.atype = case["atype"]
+        elif mut == "shift_to_zero":
+            # HISTORY: constructed somewhere else, then moved so that it starts at `start`...
+            ax = qr.TimeAxis(start + 7.5 * dt, N, dt, atype=case["atype"])
+            ax.shift_to_zero()
+            if start != 0.0:
+                raise isolation.HarnessError("shift_to_zero cases use start 0")
+        else:
+            ax = qr.TimeAxis(start, N, dt, atype=case["atype"])
     else:
         with qr.energy_units("int"):
             ax = qr.FrequencyAxis(start, N, dt, atype=case["atype"])
@@ -97,6 +110,21 @@ def _eval(case):
         raise
     back = conj_ax.get_TimeAxis() if case["dir"] == "t" else conj_ax.get_FrequencyAxis()
     bad = _same_axis(ax, back)
+    # the same way back through COPIES of the axes (spectroscopy classes work on axis.copy())
+    try:
+        cc = conj_ax.copy()
+        back_c = cc.get_TimeAxis() if case["dir"] == "t" else cc.get_FrequencyAxis()
+        badc = _same_axis(ax, back_c) or _same_axis(conj_ax, cc)
+        ac = ax.copy()
+        conj_c = ac.get_FrequencyAxis() if case["dir"] == "t" else ac.get_TimeAxis()
+        badc = badc or _same_axis(conj_ax, conj_c)
+    except Exception as e:
+        badc = ["raises-%s" % type(e).__name__]
+    if badc and not bad:
+        viol.append(("axis-roundtrip-through-copy/%s/%s" % ("%s/%s" % (case["dir"], case["atype"]),
+                                                           "+".join(badc)),
+                     "axis (start=%g,N=%d,step=%g): the round trip through copy() of the axes "
+                     "differs: %s" % (start, N, dt, badc), None))
     if bad:
         viol.append(("axis-roundtrip/%s/%s" % (tag, "+".join(bad)),
                      "axis (start=%g,N=%d,step=%g) does not map back to itself: %s"
@@ -218,7 +246,8 @@ def _eval(case):
             seen.add(v[0])
             v2.append(v)
     outcome.append([round(worst_sum, 6), round(worst_rt, 6)])
-    return {"nontrivial": True, "outcome": [tag, case["N"], case["step"], case["start"], case.get("ctx")],
+    return {"nontrivial": True, "outcome": [tag, case["N"], case["step"], case["start"], case.get("ctx"),
+                                            case.get("mut")],
             "violations": v2, "n": nbasis}
 
 
@@ -232,7 +261,14 @@ def cases(tier):
     dom = {"ctx": [None, "1/cm"], "dir": ["t", "w"], "atype": ["complete", "upper-half"],
            "start": ["zero", "centred", 3.0, -1.25], "step": [1.0, 0.5, 2.0, 0.37, -1.0],
            "N": Ns}
-    return product(dom)
+    cs = product(dom)
+    # histories on the TimeAxis object before the conjugate axis is requested
+    for mut in ("atype-set-after", "shift_to_zero"):
+        d2 = dict(dom, dir=["t"], mut=[mut])
+        d2["start"] = ["zero"] if mut == "shift_to_zero" else dom["start"]
+        d2["step"] = [1.0, 0.37]
+        cs += product(d2)
+    return cs
 
 
 def run(run):
